@@ -129,7 +129,7 @@ Proof.
   - destruct (first_big_spec _ _ _ _ K2 EB) as (b & c & a & _ & _ & _ & Hsz & _).
     cbn [set_skip set_stack s_path s_choices s_skip s_ps s_cb s_fl]. split; [|split].
     + unfold SearchInvV.vst. cbn [set_skip set_stack s_skip s_ps s_cb s_fl].
-      split; [exact Hs|]. exists []. rewrite app_nil_r. split; [exact Hv|]. split; [constructor|left; reflexivity].
+      split; [exact Hs|exact Hv].
     + eapply recs_ext; [| | | | | | | |exact HR]; reflexivity.
     + intros _. split; [destruct (s_path st); discriminate|]. split; [reflexivity|].
       intros top Ht. rewrite last_opt_app in Ht. inversion Ht. lia.
